@@ -67,6 +67,8 @@ def main():
         mp = os.path.join(VERIF, 'seeded', d, 'meta.json')
         if os.path.exists(mp):
             m = json.load(open(mp))
+            if m.get('outside_contract'):
+                continue      # manifests only outside the stated port contract (DESIGN §10): kept for the record, not expected to fire
             if m.get('round', 1) >= 2:     # round 1 is already in variants.json as edits
                 vs.append({'id': 'seeded-' + d, 'property': m['property'], 'expect': 'fire', 'rule': None, 'patch': 'seeded/%s/patch.diff' % d})
     bdir = os.path.join(VERIF, 'benign')
